@@ -357,5 +357,65 @@ func init() {
 			}
 		}
 		wg.Wait()
+		if ctx.Batch == 0 && !ctx.Abort {
+			c19Storm(ctx, dir)
+		}
 	})
+}
+
+// c19Storm: many commands at once, each through a path that was never used before (the daemon at start-up: every
+// cmd sensor and cmd fan of the configuration runs its command for the first time, from its own goroutine). Every call
+// must come back with the command's output resp. the refusal; a runtime abort of the process ends the batch and is
+// attributed to this case by the case log.
+func c19Storm(ctx *Ctx, dir string) {
+	ctx.LogCase(map[string]interface{}{"class": "process-died-under-concurrent-commands", "case": "12 goroutines x 150 never-used paths"})
+	sdir := filepath.Join(dir, "storm")
+	_ = os.MkdirAll(sdir, 0755)
+	good, bad := filepath.Join(sdir, "good.sh"), filepath.Join(sdir, "bad.sh")
+	_ = os.WriteFile(good, []byte("#!/bin/sh\necho 42\n"), 0755)
+	_ = os.WriteFile(bad, []byte("#!/bin/sh\necho 43\n"), 0757)
+	_ = os.Chmod(bad, 0757)
+	const G, K = 12, 150
+	paths := make([][]string, G)
+	for g := 0; g < G; g++ {
+		for k := 0; k < K; k++ {
+			p := filepath.Join(sdir, fmt.Sprintf("l-%d-%d", g, k))
+			target := good
+			if k%3 == 2 {
+				target = bad
+			}
+			_ = os.Symlink(target, p)
+			paths[g] = append(paths[g], p)
+		}
+	}
+	var mu sync.Mutex
+	var wg sync.WaitGroup
+	for g := 0; g < G; g++ {
+		wg.Add(1)
+		go func(g int) {
+			defer wg.Done()
+			for k, p := range paths[g] {
+				via := []string{"SafeCmdExecution", "CmdSensor", "CmdFan.GetPwm"}[(g+k)%3]
+				r := c19Call(via, p, 5*time.Second)
+				mu.Lock()
+				ctx.Eval(1)
+				replay := map[string]interface{}{"mode": "concurrent-never-used-paths", "via": via}
+				wantErr := k%3 == 2
+				switch {
+				case r.panicMsg != "":
+					ctx.Violation("panic:concurrent-never-used-paths:via="+via, r.panicMsg, replay)
+				case r.blocked:
+					ctx.Violation("blocked-past-timeout:concurrent-never-used-paths:via="+via, fmt.Sprintf("%s: no result %.1fs after the call", p, r.elapsed.Seconds()), replay)
+				case wantErr && r.err == nil:
+					ctx.Violation("failure-not-reported:concurrent-never-used-paths:via="+via, fmt.Sprintf("a world-writable script was run: out=%q", trunc(r.out)), replay)
+				case !wantErr && (r.err != nil || !strings.HasPrefix(r.out, "42")):
+					ctx.Violation("healthy-command-failed:concurrent-never-used-paths:via="+via, fmt.Sprintf("out=%q err=%v", trunc(r.out), r.err), replay)
+				}
+				mu.Unlock()
+			}
+		}(g)
+	}
+	wg.Wait()
+	ctx.Nontrivial("concurrent-never-used-paths|12x150")
+	ctx.Count("concurrent_first_use_calls", G*K)
 }
